@@ -41,9 +41,6 @@ func runProbes(c *kit.Ctx) {
 			Nodes: []nodeSpec{{Name: "n0", Pool: "pool-a", IT: "c0", CT: "on-demand", Zone: "z1", CPU: 8, Init: true,
 				Pods: []podSpec{{Name: "p-n0-0", CPUm: 1000, Del: &d, Pin: true}}}},
 		}
-		saved := c.Rand
-		c.Rand = kit.NewRand(7) // Bool() sequence: real validator
-		runEmpty(c, genOut{spec: spec, mode: "probe_empty"})
-		c.Rand = saved
+		runEmpty(c, genOut{spec: spec, mode: "probe_empty"}, true) // with the real EmptinessValidator
 	}
 }
